@@ -80,6 +80,12 @@ pub(crate) mod verif_sink {
     pub(crate) fn link() -> Option<([u8; OUT_CAP], usize)> {
         unsafe {
             if OVERFLOW { return None; }
+            if NEXT == 1 {
+                // offset-free table: the root object's bytes are the compiled table (no loop: plain copy)
+                let mut out = [0u8; OUT_CAP];
+                out[..OBJ_CAP].copy_from_slice(&BUF[0]);
+                return Some((out, LEN[0]));
+            }
             let mut start = [0usize; MAXOBJ];
             let mut total = 0;
             let mut k = 0;
